@@ -74,9 +74,11 @@ func absTags(m map[string]string) []interface{} {
 
 type tagEnv struct {
 	net        *quiet.Net
-	recv       map[int]*quiet.Node // receivers by protocol version
-	a          map[int]*quiet.Node // long-lived senders by protocol version (events)
-	qa, qb, qc *quiet.Node         // query family: origin, responder, relay
+	recv       map[int]*quiet.Node       // receivers by protocol version
+	a          map[int]*quiet.Node       // long-lived senders by protocol version (events)
+	qa, qb, qc *quiet.Node               // query family: origin, responder, relay (set per input from qnodes)
+	qnodes     map[string][3]*quiet.Node // by via ("-" / "named")
+	rnodes     [2]*quiet.Node            // relay family, via "named": forwarder, destination
 	seq        int
 	names      int
 	uses       map[int]int
@@ -111,6 +113,17 @@ func setTags(n *quiet.Node, tags map[string]string) (err error) {
 		}
 	}()
 	return n.Serf.SetTags(tags)
+}
+
+// namedNode: a node whose memberlist requires node names on every address it sends to
+func (e *tagEnv) namedNode(prefix string) *quiet.Node {
+	e.names++
+	n, err := quiet.NewNode(e.net, fmt.Sprintf("%s-%d", prefix, e.names), nil, withPV(5, nil),
+		func(c *serf.Config) { c.MemberlistConfig.RequireNodeNames = true })
+	if err != nil {
+		h.Die("%v", err)
+	}
+	return n
 }
 
 func (e *tagEnv) receiver(pv int) *quiet.Node {
@@ -329,9 +342,9 @@ func relayEnvelope(dest *quiet.Transport, destName string, inner []byte) []byte 
 }
 
 // forwarded: the user messages node `from` sent to `to` since the last TakePackets, waiting (bounded) for one
-func (e *tagEnv) forwarded(from, to string, want func([]byte) bool) [][]byte {
+func (e *tagEnv) forwarded(from, to string, wait time.Duration, want func([]byte) bool) [][]byte {
 	var res [][]byte
-	deadline := time.Now().Add(5 * time.Second)
+	deadline := time.Now().Add(wait)
 	for {
 		for _, p := range e.net.TakePackets() {
 			if p.From == from && p.To == to {
@@ -350,15 +363,26 @@ func (e *tagEnv) forwarded(from, to string, want func([]byte) bool) [][]byte {
 }
 
 func (e *tagEnv) runRelayInput(st h.Step) map[string]interface{} {
+	named := st.Str("via") == "named"
 	b, a := e.receiver(5), e.sender(5)
+	destName := string(concSyms(st["s2"]))
+	wait := 5 * time.Second
+	if named {
+		if e.rnodes[0] == nil {
+			e.rnodes = [2]*quiet.Node{e.namedNode("rfwd"), e.namedNode("rdst")}
+		}
+		b, a = e.rnodes[0], e.rnodes[1]
+		destName = a.Name
+		wait = 1500 * time.Millisecond
+	}
 	e.seq++
 	inner := quiet.Encode(quiet.TQueryResponse, &quiet.MsgQueryResponse{LTime: uint64(1000000 + e.seq), ID: uint32(e.seq),
 		From: "x", Payload: concSyms(st["s1"])})
-	env := relayEnvelope(a.Tr, string(concSyms(st["s2"])), inner)
+	env := relayEnvelope(a.Tr, destName, inner)
 	b.Drain()
 	e.net.TakePackets()
 	b.Del.NotifyMsg(env)
-	got := e.forwarded(b.Name, a.Name, func(um []byte) bool { return len(um) > 0 && um[0] == quiet.TQueryResponse })
+	got := e.forwarded(b.Name, a.Name, wait, func(um []byte) bool { return len(um) > 0 && um[0] == quiet.TQueryResponse })
 	same := 0
 	if len(got) > 0 && bytes.Equal(got[0], inner) {
 		same = 1
@@ -367,18 +391,47 @@ func (e *tagEnv) runRelayInput(st h.Step) map[string]interface{} {
 }
 
 func (e *tagEnv) runQueryInput(st h.Step) map[string]interface{} {
-	if e.qa == nil {
-		var err error
-		for _, p := range []**quiet.Node{&e.qa, &e.qb, &e.qc} {
-			if *p, err = e.node("q", 5, nil); err != nil {
-				h.Die("%v", err)
+	via := st.Str("via")
+	named := via == "named"
+	if e.qnodes == nil {
+		e.qnodes = map[string][3]*quiet.Node{}
+	}
+	if _, ok := e.qnodes[via]; !ok {
+		var ns [3]*quiet.Node
+		for i := range ns {
+			if named {
+				ns[i] = e.namedNode("qn")
+			} else {
+				var err error
+				if ns[i], err = e.node("q", 5, nil); err != nil {
+					h.Die("%v", err)
+				}
 			}
 		}
 		// B knows A and C as members (needed by relayResponse)
-		e.qb.Ev.NotifyJoin(e.qb.MLNode(e.qa.Name, e.qa.Tr, nil))
-		e.qb.Ev.NotifyJoin(e.qb.MLNode(e.qc.Name, e.qc.Tr, nil))
+		ns[1].Ev.NotifyJoin(ns[1].MLNode(ns[0].Name, ns[0].Tr, nil))
+		ns[1].Ev.NotifyJoin(ns[1].MLNode(ns[2].Name, ns[2].Tr, nil))
+		e.qnodes[via] = ns
 	}
+	e.qa, e.qb, e.qc = e.qnodes[via][0], e.qnodes[via][1], e.qnodes[via][2]
 	a, b := e.qa, e.qb
+	wait := 5 * time.Second
+	if named {
+		// the direct reply B -> A is lost on the transport (still captured): only the relayed copy can arrive
+		wait = 1500 * time.Millisecond
+		e.net.Drop = func(from, to string, buf []byte) bool {
+			if from != b.Name || to != a.Name {
+				return false
+			}
+			for _, um := range quiet.UserMsgs(buf) {
+				if len(um) > 0 && um[0] == quiet.TQueryResponse {
+					return true
+				}
+			}
+			return false
+		}
+		defer func() { e.net.Drop = nil }()
+	}
 	name, payload, reply := string(concSyms(st["s1"])), concSyms(st["s2"]), concSyms(st["s3"])
 	obs := map[string]interface{}{"name": []int{9}, "payload": []int{9}, "reply": []int{9}, "replies": 0, "same": 0}
 	a.Drain()
@@ -426,12 +479,12 @@ WAIT:
 			obs["replies"] = 1
 			obs["reply"] = absBytes(r.Payload)
 		}
-	case <-time.After(5 * time.Second):
+	case <-time.After(wait):
 	}
 	// bytes on the wire: direct reply B->A, envelope B->relay, forwarded relay->A
 	var direct, envelope, fwd []byte
 	var relayName string
-	end := time.Now().Add(5 * time.Second)
+	end := time.Now().Add(wait)
 	isResp := func(um []byte) bool { return len(um) > 0 && um[0] == quiet.TQueryResponse }
 	for {
 		for _, p := range e.net.TakePackets() {
